@@ -136,10 +136,9 @@ theorem frame_set' (σ : PyState) (l : String) (v : Val) (n : String) (h : n ≠
 
 /-- an unconditional member (nothing parked): the emitted statements do what `decFieldStep` does -/
 theorem plain_sim {σ : PyState} {st st' : DecState} {full hid pre : List Field} (hS : Sim σ st hid pre)
-    (hlk : ∀ n, (∀ x ∈ hid, x.name ≠ n) → lookupField full n = lookupField pre n)
     (hnn : ∀ ty b v, r.dec ty b = .ok v → v ≠ .none)
     {f : Field} (hq : st.queued.find? (·.1 == f.name) = none) (hc : f.cond = none) (hfresh : ∀ x ∈ pre, localName x ≠ localName f) (hne : ∀ x ∈ hid ++ pre, x.name ≠ f.name)
-    (hvis : ∀ n ∈ refsOf f, ∀ x ∈ hid, x.name ≠ n)
+    (hlk : ∀ n ∈ refsOf f, lookupField full n = lookupField pre n)
     {isLast : Bool} (hwf : wfFieldAt S d full f isLast = true) (hg : wfgdKind f = true)
     {sm : Option String} (hsm : (sm == some (printerName f.name)) = true ↔ ∃ w, f.kind = .sizeF w)
     {d' : StructDef} {idx : Nat} (hreb : rebase d' st idx = st)
@@ -157,7 +156,7 @@ theorem plain_sim {σ : PyState} {st st' : DecState} {full hid pre : List Field}
   unfold DesField.exec desFieldAst
   simp only [localCondAst, hc, Option.getD_none]
   -- the load and the slice bound
-  obtain ⟨hload, hadv⟩ := payload_sim (T := T) hS hlk hnn hfresh hvis hwf hg (src := srcOf f "buffer")
+  obtain ⟨hload, hadv⟩ := payload_sim (T := T) hS hnn hfresh hlk hwf hg (src := srcOf f "buffer")
     (by intro ty l hk; simp [srcOf, hk]) (by intro ty hk; simp [srcOf, hk]) hpay
   have hbound := fun hb => payload_bound hpay hg hb
   by_cases hsz : ∃ w, f.kind = .sizeF w
@@ -264,10 +263,9 @@ theorem plain_sim {σ : PyState} {st st' : DecState} {full hid pre : List Field}
 
 /-- a conditional member whose discriminant has been read (nothing parked) -/
 theorem cond_sim {σ : PyState} {st st' : DecState} {full hid pre : List Field} (hS : Sim σ st hid pre)
-    (hlk : ∀ n, (∀ x ∈ hid, x.name ≠ n) → lookupField full n = lookupField pre n)
     (hnn : ∀ ty b v, r.dec ty b = .ok v → v ≠ .none)
     {f : Field} {c : Cond} (hc : f.cond = some c) (hfresh : ∀ x ∈ pre, localName x ≠ localName f)
-    (hne : ∀ x ∈ hid ++ pre, x.name ≠ f.name) (hvis : ∀ n ∈ refsOf f, ∀ x ∈ hid, x.name ≠ n)
+    (hne : ∀ x ∈ hid ++ pre, x.name ≠ f.name) (hlk : ∀ n ∈ refsOf f, lookupField full n = lookupField pre n)
     {isLast : Bool} (hwf : wfFieldAt S d full f isLast = true) (hg : wfgdKind f = true) (hgc : wfgdCond S d f = true)
     (hearly : refOk full c.field (discKindOk c) = true)
     {sm : Option String} (hsm : (sm == some (printerName f.name)) = true ↔ ∃ w, f.kind = .sizeF w)
@@ -295,7 +293,7 @@ theorem cond_sim {σ : PyState} {st st' : DecState} {full hid pre : List Field} 
   unfold decCondField at hstep
   -- the discriminant
   unfold refOk at hearly
-  rw [hlk _ (hvis c.field (by simp [refsOf, hc]))] at hearly
+  rw [hlk c.field (by simp [refsOf, hc])] at hearly
   cases hl : lookupField pre c.field with
   | none => simp [hl] at hearly
   | some gk =>
@@ -356,7 +354,7 @@ theorem cond_sim {σ : PyState} {st st' : DecState} {full hid pre : List Field} 
         obtain ⟨⟨v, adv⟩, hpay, hstep⟩ := bind_eq_ok.mp hstep
         simp only [pure, Except.pure, Except.ok.injEq] at hstep
         subst hstep
-        obtain ⟨hload, hadv⟩ := payload_sim (T := T) hS0 hlk hnn hfresh hvis hwf hg (src := srcOf f "buffer")
+        obtain ⟨hload, hadv⟩ := payload_sim (T := T) hS0 hnn hfresh hlk hwf hg (src := srcOf f "buffer")
           (by intro ty l hk; simp [srcOf, hk]) (by intro ty hk; simp [srcOf, hk]) hpay
         have hbound := fun hb => payload_bound hpay hg hb
         refine ⟨{ (σ.set (printerName f.name) .none).set (localName f) v with buffer := st.buf.drop adv }, ?_, ?_, rfl, rfl,
